@@ -269,6 +269,56 @@ func checkC13(c *Ctx) {
 		_ = n
 	}
 
+	// C13.6 a rollout: the registrars learn the new ClientConf generation only after the subnets of that generation are
+	// installed - clients are moved to the newest generation the registrars know, which must be selectable
+	r.Rule("C13.6", "on SIGHUP the phantom subnets are reloaded before the new ClientConf generation is published", 1)
+	{
+		n := 0
+		for _, f := range c.funcsOfPkgs("cmd/regserver", "cmd/registration-server") {
+			var reload []ssa.Instruction
+			var load ssa.Instruction
+			var publish []ssa.CallInstruction
+			eachInstr(f, func(in ssa.Instruction) {
+				ci, ok := in.(ssa.CallInstruction)
+				if !ok {
+					return
+				}
+				switch calleeShort(ci.Common()) {
+				case "ReloadSubnets":
+					reload = append(reload, in)
+				case "loadConfig":
+					load = in
+				case "NewClientConf", "UpdateLatestCCGen":
+					publish = append(publish, ci)
+				}
+			})
+			if len(reload) == 0 {
+				continue
+			}
+			for _, p := range publish {
+				n++
+				set := map[ssa.Instruction]bool{}
+				for _, x := range reload {
+					set[x] = true
+				}
+				skip, w := reach(f, load, isInstr(p.(ssa.Instruction)), inSet(set), nil)
+				if skip {
+					r.Bad("C13.6", fnName(f)+": "+calleeShort(p.Common())+" can run before ReloadSubnets", p.Pos(), fnName(f),
+						"the new ClientConf generation is announced to the registrars before the subnets of that generation are installed: the API registrar moves out-of-date clients to the newest generation it knows, the selector does not have it yet, and requests fail ('generation number not recognized') until the reload finishes", r.blockPath(f, w)...)
+				} else {
+					r.OK("C13.6", fnName(f)+": "+calleeShort(p.Common())+" only after ReloadSubnets", p.Pos(), "must-pass from the configuration load")
+				}
+			}
+		}
+		if n == 0 {
+			r.Unk("C13.6", "SIGHUP handler of the registration server", token.NoPos, "", "no function with ReloadSubnets and NewClientConf / UpdateLatestCCGen found")
+		}
+	}
+
+	// C13.7 requests run their selections on the snapshot with no lock held: selection only reads the selector (a lazily
+	// filled memo inside the loaded configuration is written by the first requests after every reload, concurrently)
+	checkSelectionPurity(c, "C13.7", "pkg/phantoms")
+
 	// C13.3 reload
 	r.Rule("C13.3", "ReloadSubnets: parse outside the lock, no call under the write lock, store only when the load succeeded", 3)
 	if f := c.fn("C13.3", "pkg/regserver/regprocessor", "RegProcessor", "ReloadSubnets"); f != nil {
